@@ -826,7 +826,7 @@ class VarsCollector:
 				if decl_var.domain_name != add_var.domain_name:
 					continue
 
-				if add_var.scope.startswith(decl_var.scope):
+				if add_var.scope == decl_var.scope or add_var.scope.startswith(f'{decl_var.scope}.') or add_var.scope.startswith(f'{decl_var.scope}#'):
 					relationed = True
 					break
 
